@@ -2,6 +2,7 @@ package main
 
 import (
 	_ "verif/harness/c01"
+	_ "verif/harness/c02"
 	_ "verif/harness/c03"
 	_ "verif/harness/c06"
 	_ "verif/harness/c11"
